@@ -8,11 +8,13 @@
    from what the model of the library's writers emits for an attribute value is the strict
    content of that value, for every value kind and both values of force_types; and at
    record level for PROV-JSON: the object written for a record is read by JsonSpec.read_record
-   as that record (kind, identifier URI, every value of every attribute, in order).  The
-   container level (JsonSpec.read (encode_doc d) = content d) is stated and decided per run
+   as that record (kind, identifier URI, every value of every attribute, in order), and at
+   container level for PROV-JSON: JsonSpec.read_container of what the writer emits for a
+   container is the list of its records' contents in the grouped order (C10_json_container).  The
+   document level (bundles) and PROV-XML above value level (JsonSpec.read (encode_doc d) = content d) is stated and decided per run
    by executing the extracted readers on the implementation's real output. *)
 From Coq Require Import String List Bool ZArith.
-From Prov Require Import Str Sexp Tables Spec TablesOK Nsm NsmProofs Values Record World Jtree Json JsonProofs JsonSpec Xml XmlProofs XmlSpec SpecProofs JsonRecProofs SpecRecProofs.
+From Prov Require Import Str Sexp Tables Spec TablesOK Nsm NsmProofs Values Record World Jtree Json JsonProofs JsonSpec Xml XmlProofs XmlSpec SpecProofs JsonRecProofs SpecRecProofs JsonContProofs SpecContProofs.
 Import ListNotations.
 Open Scope string_scope.
 
@@ -149,6 +151,21 @@ Example C10_json_record_applies :
   JsonSpec.read_record [] x_t "Usage" ["activity"; "entity"; "time"] "ex:u" (encode_record_obj x_r)
   = Some [record_content "Usage" (A "http://e/u") x_r].
 Proof. exact spec_json_record_applies. Qed.
+
+(* ---- container level, PROV-JSON.  spec_ok: the record's kind label is a key of the specification's table, not
+   "prefix"/"bundle", the record is not a membership, its attributes are attr_spec, its identifier string
+   resolves in the reader's table to the identifier's URI.  The hypothesis on read_prefixes says which table
+   the reader has after the prefix block.  grouped: the order in which the record maps list the records. *)
+Theorem C10_json_container : forall ft base b t,
+  read_prefixes base (match encode_prefixes (bns b) with [] => None | ps => Some (JObj ps) end) = Some t ->
+  Forall (spec_ok ft t) (brecs b) ->
+  read_container ft base (encode_container b) = Some (t, map content_rec (grouped (brecs b))).
+Proof. exact spec_json_container. Qed.
+Print Assumptions C10_json_container.
+
+Example C10_json_container_applies :
+  read_container [] builtin_ptable (encode_container y_b) = Some (x_t, map content_rec (grouped (brecs y_b))).
+Proof. exact spec_json_container_applies. Qed.
 
 Example C10_formals_covered :
   forallb (fun k => forallb (fun l =>
